@@ -264,11 +264,14 @@ def lemma_conditions(pid, tier):
             cs.append(xhrun.Cond("harness_queue", "c04_queue", {"XH_Q": kind, "XH_NINIT": ninit, "XH_OPS": ops}, timeout=300,
                                  label=f"queue_contract_{kind}_init{ninit}_{ops}"))
     cs.append(xhrun.Cond("harness_queue", "c04_create_queue", {}, timeout=300, label="queue_contract_create_queue"))
+    cs.append(xhrun.Cond("harness_queue", "c04_prepare", {}, timeout=900, label="prepare_nodes_closed_form"))
     if pid == "C06":
         # the glue above the engine: process -> NodeError -> run -> CallError (call identity, cause identity, nothing downstream)
         for sh in (("chain3", "join3") if tier == "quick" else ("chain3", "fork3", "join3", "indep3")):
             for r in (0, 1):
                 cs.append(xhrun.Cond("harness_err", "c06_error", {"XH_ESHAPE": sh, "XH_EREG": r}, timeout=600, label=f"callerror_{sh}_reg{r}"))
+        cs.append(xhrun.Cond("harness_err", "c06_error", {"XH_ESHAPE": "chain3", "XH_EREG": 0, "XH_EHAND": 1}, timeout=600, label="callerror_chain3_handbuilt_call"))
+        cs.append(xhrun.Cond("harness_err", "c06_error", {"XH_ESHAPE": "join3", "XH_EREG": 0, "XH_EBADREPR": 1}, timeout=600, label="callerror_join3_raising_repr"))
     if pid == "C10":
         # retry: the real create_retry / _coerce_retry, and retry inside a run (calls, store read / write, modified-time query)
         cs.append(xhrun.Cond("harness_retry", "c10_retry", {}, timeout=600, label="retry_wrapper"))
@@ -281,20 +284,25 @@ def lemma_conditions(pid, tier):
     if pid == "C07":
         # cycles are rejected up front: the real Kahn implementation on symbolic digraphs, and run() on plans with symbolic dependency edges
         topo = [("c07_kahn", {"XH_TN": 3, "XH_SELF": 1, "XH_MULTI": 0}), ("c07_run", {"XH_REG": 0, "XH_SELF": 0, "XH_TOUT": "last"}),
-                ("c07_run", {"XH_REG": 1, "XH_SELF": 0, "XH_TOUT": "none"})]
+                ("c07_run", {"XH_REG": 1, "XH_SELF": 0, "XH_TOUT": "none"}), ("c07_run", {"XH_REG": 2, "XH_SELF": 0, "XH_TOUT": "last"})]
         if tier == "thorough":
             topo += [("c07_kahn", {"XH_TN": 4, "XH_SELF": 0, "XH_MULTI": 1}), ("c07_kahn", {"XH_TN": 3, "XH_SELF": 1, "XH_MULTI": 1}),
                      ("c07_run", {"XH_REG": 1, "XH_SELF": 1, "XH_TOUT": "last"}), ("c07_run", {"XH_REG": 0, "XH_SELF": 1, "XH_TOUT": "last"})]
         for fn, env in topo:
             cs.append(xhrun.Cond("harness_topo", fn, env, timeout=1500, label=fn + "".join(f"_{k[3:].lower()}{v}" for k, v in env.items())))
+        # threads run creates include the display threads of the bundled observers: a member failing in __enter__ must not leave the
+        # members entered before it running (their update threads) -- the composite's unwinding, from the C15 harness
+        cs.append(xhrun.Cond("harness_prog", "c15_enter_fail", {}, timeout=300, label="observers_unwound_when_a_member_fails_to_start"))
     if pid in ("C01", "C04"):
         # plan -> engine graph: pruning keeps exactly the needed calls and every dependency between them (also through literals)
-        prune = [("clcc", "", "", "lit", "last"), ("cllc", "", "", "lit", "all"), ("cllcc", "01,12,23,14", "02,03,04", "lit", "all")]
+        prune = [("clcc", "", "", "lit", "last"), ("cllc", "", "", "lit", "all"), ("cllcc", "01,12,23,14", "02,03,04", "lit", "all"),
+                 ("cllc", "01,12,23", "", "lit", "all", 1)]
         if tier == "thorough":
             prune += [("clcc", "", "", "all", "last"), ("cllc", "", "", "all", "all"), ("lclc", "", "", "all", "last"), ("clcc", "", "", "all", "all"),
                       ("cclc", "", "", "all", "none"), ("cllc", "", "", "all", "2"), ("cllcc", "01,12,23,14", "", "lit", "all"),
                       ("clclc", "01,12,23,34", "02,04", "lit", "last"), ("lcllc", "01,12,23,34", "02,13", "lit", "last")]
-        for kinds, fix, no, ak, out in prune:
-            cs.append(xhrun.Cond("harness_prune", "c01_prune", {"XH_PKINDS": kinds, "XH_PFIX": fix, "XH_PNO": no, "XH_PAK": ak, "XH_POUT": out},
-                                 timeout=2400, label=f"prune_{kinds}_fix{fix.replace(',', '_')}_no{no.replace(',', '_')}_{ak}_out{out}"))
+        for kinds, fix, no, ak, out, *rev in prune:
+            rev = rev[0] if rev else 0
+            cs.append(xhrun.Cond("harness_prune", "c01_prune", {"XH_PKINDS": kinds, "XH_PFIX": fix, "XH_PNO": no, "XH_PAK": ak, "XH_POUT": out, "XH_PREV": rev},
+                                 timeout=2400, label=f"prune_{kinds}_fix{fix.replace(',', '_')}_no{no.replace(',', '_')}_{ak}_out{out}_rev{rev}"))
     return cs
